@@ -169,6 +169,8 @@ impl Engine for C01 {
                     CDamage::SwapWith(a) => *a = AddrRef { algo, blob: 1 },
                     _ => {}
                 }
+                // (a stream that stops early is not a finished retrieval)
+                let bufs = if matches!(bufs.first(), Some(&m) if m == usize::MAX - 2 || m == usize::MAX - 3) { bufs[1..].to_vec() } else { bufs };
                 Case { algo, blob, other, dmg, bufs, threads: if threads { 4 } else { 0 }, weaker_hash_of_other: weaker }
             })
             .boxed()
